@@ -102,7 +102,9 @@ func (c *conn) rangeAndClean(f func(index int, resultChan chan data)) {
 func (c *conn) Transport(ctx context.Context, request []byte) (response []byte, err error) {
 	index := int(atomic.AddInt32(&c.counter, 1) & 0x7fffffff)
 	resultChan := make(chan data, 1)
+	verifPoint("transport.beforeStore")
 	c.store(index, resultChan)
+	verifPoint("transport.afterStore")
 	select {
 	case <-ctx.Done():
 		c.delete(index)
@@ -217,12 +219,14 @@ func (c *conn) Close(err error) {
 		c.onClose(c.Conn)
 		_ = c.Conn.Close()
 	})
+	verifPoint("close.beforeClean")
 	c.rangeAndClean(func(index int, resultChan chan data) {
 		resultChan <- data{
 			Index: index,
 			Error: err,
 		}
 	})
+	verifPoint("close.afterClean")
 }
 
 type Transport struct {
